@@ -9,9 +9,9 @@
 // page and even if a write stores back the value that was there.
 //
 // Four debug registers exist; a watchpoint covers 1, 2, 4 or 8 bytes and must be
-// aligned to its length.  watch_around(lo, hi) covers the largest aligned pieces
-// directly below lo and directly above hi (two pieces each): at least the adjacent
-// byte on either side and up to 16 bytes.
+// aligned to its length.  watch_around(lo, hi) covers, on either side, the largest
+// aligned piece directly adjacent to the range and one roving 8-byte piece up to 64
+// bytes further out (its distance varies from call to call).
 //
 // If the kernel refuses (perf_event_paranoid, seccomp, no debug registers in a VM)
 // available() is false and drivers simply do not emit the "hw" field.
@@ -124,27 +124,29 @@ public:
         return hits == 0;
     }
 
-    // watch below lo (if below) and above hi (if above); returns number of armed watchpoints
-    int watch_around(const void* lo_, const void* hi_, bool below, bool above) {
+    // watch below lo (if below) and above hi (if above); returns number of armed watchpoints.
+    // Per side: the largest aligned piece directly adjacent to the range (a contiguous over-access must touch it) and
+    // one ROVING 8-byte piece 8..64 bytes further out, whose distance changes with `rove` from call to call, so that an
+    // access which skips the adjacent bytes (the other half of a vector window, the next element but one) is met
+    // by one of the repeated calls of the same transfer.
+    int watch_around(const void* lo_, const void* hi_, bool below, bool above, unsigned rove = 0) {
         disarm();
         std::uintptr_t lo = reinterpret_cast<std::uintptr_t>(lo_), hi = reinterpret_cast<std::uintptr_t>(hi_);
         if (above) {
-            std::uintptr_t a = hi;
-            for (int k = 0; k < 2; ++k) {
-                unsigned l = piece_up(a);
-                int fd = open_bp(a, l);
-                if (fd >= 0) fd_[n_++] = fd;
-                a += l;
-            }
+            unsigned l = piece_up(hi);
+            int fd = open_bp(hi, l);
+            if (fd >= 0) fd_[n_++] = fd;
+            std::uintptr_t far = ((hi + l + 7) & ~std::uintptr_t(7)) + 8 * (rove % 8);
+            fd = open_bp(far, 8);
+            if (fd >= 0) fd_[n_++] = fd;
         }
         if (below) {
-            std::uintptr_t a = lo;
-            for (int k = 0; k < 2; ++k) {
-                unsigned l = piece_down(a);
-                int fd = open_bp(a - l, l);
-                if (fd >= 0) fd_[n_++] = fd;
-                a -= l;
-            }
+            unsigned l = piece_down(lo);
+            int fd = open_bp(lo - l, l);
+            if (fd >= 0) fd_[n_++] = fd;
+            std::uintptr_t far = ((lo - l) & ~std::uintptr_t(7)) - 8 * (1 + (rove / 8) % 8);
+            fd = open_bp(far, 8);
+            if (fd >= 0) fd_[n_++] = fd;
         }
         return n_;
     }
